@@ -247,7 +247,7 @@ def gen_plan(rng, tier, idx, opts):
         for v in range(nv):
             per_v.append({nm: [gen_obs(rng, nm, mode) for _ in range(rng.randint(1, 5))] for nm in names})
         sets.append({"grid": g, "obs": per_v})
-    return {"world": "results", "level": "combine", "mode": mode, "names": names, "fixed": {"nt": rng.choice([2, "x"])},
+    return {"world": "results", "level": "combine", "mode": mode, "names": names, "fixed": {"nt": rng.choice([2, "x"])}, "params_reused": rng.random() < 0.25,
             "array": rng.random() < 0.5, "sets": sets,
             "scale": rng.choice([None, None, None, 1e-9, 0.5])}      # grid values are scale*k: distinct floats, possibly tiny
 
@@ -517,6 +517,16 @@ def _exec_combine(plan, res, log, pid, mode):
         sc = plan.get("scale")
         for k in pn:
             vals = list(sp["grid"][k]) if sc is None else [v * sc for v in sp["grid"][k]]
+            if plan.get("params_reused"):
+                # the parameters object served an earlier sweep with another grid (and was queried) before the grid of THIS
+                # sweep was assigned through item assignment
+                decoy = [99 + i for i in range(len(vals) + 1 + (len(k) % 2))]
+                params.add(k, np.array(decoy) if plan.get("array") else decoy)
+                params.set_unpack_parameter(k)
+                params.get_num_unpacked_variations()
+                params.get_unpacked_params_list()
+                params[k] = np.array(vals) if plan.get("array") else vals
+                continue
             params.add(k, np.array(vals) if plan.get("array") else vals)
             params.set_unpack_parameter(k)
         s = SimulationResults()
